@@ -22,6 +22,7 @@ import (
 	"encoding/json"
 	"fmt"
 	"reflect"
+	"strings"
 	"time"
 
 	"github.com/vimeo/dials"
@@ -253,10 +254,16 @@ func runStack2(in input) driver.Result {
 	planted := share(r, roots, 1, 2)
 	layers := make([]reflect.Value, nl)
 	for i := range layers {
-		if r.Chance(1, 3) {
+		// how the source hands its value over: a pointer to the struct, the addressable
+		// struct, or a plain NON-ADDRESSABLE struct value (a shallow copy of the struct:
+		// same references)
+		switch r.Intn(3) {
+		case 0:
 			layers[i] = lptr[i]
-		} else {
+		case 1:
 			layers[i] = lptr[i].Elem()
+		default:
+			layers[i] = reflect.ValueOf(lptr[i].Elem().Interface())
 		}
 	}
 
@@ -369,7 +376,20 @@ type HSub struct {
 	N int
 }
 
+// TURef implements encoding.TextUnmarshaler (pointer receiver) AND has exported
+// reference-typed fields: dials replaces it as a whole when stacking, but its memory
+// must be copied like everybody else's.
+type TURef struct {
+	S []string
+	M map[string]int
+	P *int
+}
+
+func (t *TURef) UnmarshalText(b []byte) error { t.S = []string{string(b)}; return nil }
+
 type HCfg struct {
+	T      TURef
+	PT     *TURef
 	Name   string
 	M      map[string][]int
 	S      []int
@@ -401,6 +421,13 @@ func (s *watchSrc) Value(_ context.Context, t *dials.Type) (reflect.Value, error
 func (s *watchSrc) Watch(_ context.Context, t *dials.Type, args dials.WatchArgs) error {
 	s.typ, s.args = t, args
 	return nil
+}
+
+// hcfgFieldsTerm prints HCfg's fields for Coq; TURef is a TextUnmarshaler struct (TTextU),
+// which rty.TyTerm only knows for its own palette types.
+func hcfgFieldsTerm() string {
+	tu := rty.TyTerm(reflect.TypeOf(TURef{}))
+	return strings.ReplaceAll(rty.FieldsTerm(reflect.TypeOf(HCfg{})), tu, "(TTextU "+coqfmt.Str("main.TURef")+" true)")
 }
 
 // genHistory builds, from the case's PRNG state alone, the caller's defaults and
@@ -463,7 +490,14 @@ func runHistory(in input, mutateDefaults bool) (driver.Result, []string) {
 		if p.Type().Elem() != t.Type() {
 			panic("c02: pointerified type differs from the one dials hands to sources")
 		}
-		return p.Elem()
+		// the three ways a source can hand its value over
+		switch (in.State >> (2 * uint((next-1)%30))) % 3 {
+		case 0:
+			return p // pointer to the struct
+		case 1:
+			return reflect.ValueOf(p.Elem().Interface()) // plain, non-addressable struct value
+		}
+		return p.Elem() // addressable struct
 	}
 	ctx, cancel := context.WithCancel(context.Background())
 	defer cancel()
@@ -613,7 +647,7 @@ func runHistory(in input, mutateDefaults bool) (driver.Result, []string) {
 		}
 	}
 	return driver.Result{
-		Coq: fmt.Sprintf("History %s %s %d %d %s %s", rty.FieldsTerm(reflect.TypeOf(HCfg{})), coqfmt.List(w.Objs(0)), nIn,
+		Coq: fmt.Sprintf("History %s %s %d %d %s %s", hcfgFieldsTerm(), coqfmt.List(w.Objs(0)), nIn,
 			w.PtrID(inputs[0]), coqfmt.List(evTerms), coqfmt.List(vterms)),
 		Kind: "history", Nontrivial: planted > 0 && in.Updates >= 1, Direct: direct, Tags: tags,
 	}, vcanon
